@@ -269,6 +269,11 @@ func NewConfig(prop string, tier string, r *core.Rand) Config {
 		c.KindW["unstake"], c.KindW["stake"], c.KindW["delegate"] = 3, 4, 3
 		c.Blocks = r.Range(14, 24)
 	}
+	if (prop == "C12" || prop == "C14" || prop == "C02") && c.NVals >= 3 && r.Chance(0.2) {
+		// a genesis validator without any coins that never signs: it is stopped for downtime and its stake is paid
+		// back to an account that nothing else ever touched
+		c.SilentVal = 1 + r.Intn(c.NVals)
+	}
 	if ((prop == "C05" || prop == "C13") && r.Chance(0.12)) || (prop != "C08" && prop != "C18" && prop != "C20" && r.Chance(0.02)) {
 		// amounts at the 256-bit boundary inside the reward path
 		c.RewardCliff = r.Range(4, 6)
@@ -378,7 +383,10 @@ func NewGenesis(c *Config, seed uint64, world int, r *core.Rand) GenesisSpec {
 					ga.Power = cliffPower
 				}
 			}
-			if ga.Balance == "0" && r.Chance(0.7) {
+			if c.SilentVal == i+1 {
+				ga.Power = minStakeCoins // the smallest, so that the others keep more than two thirds
+				ga.Balance = "0"
+			} else if ga.Balance == "0" && r.Chance(0.7) {
 				ga.Balance = new(big.Int).Mul(big.NewInt(int64(r.Range(1000, 100_000))), coin).String()
 			}
 		}
@@ -565,6 +573,14 @@ func (g *Generator) govOption() string {
 			}
 		}
 	}
+	if g.r.Chance(0.06) {
+		// a number the decoder cannot take (not decimal, negative, beyond 256 bits, not a string)
+		bad := []string{`"ten"`, `"-5"`, `"` + strings.Repeat("9", 81) + `"`, `"1e5"`, `" 7"`, `"0x10"`, `12`, `null`, `["1"]`}[g.r.Intn(9)]
+		// (only the amount-typed parameters: a negative seat count or ratio is a well-formed number the
+		// validation accepts, and what happens when two thirds of the validators adopt it is outside C09, S18)
+		key := []string{"gasPrice", "rewardPerPower", "minValidatorStake", "minDelegatorStake"}[g.r.Intn(4)]
+		return fmt.Sprintf(`{"%s":%s}`, key, bad)
+	}
 	n := g.r.Range(1, 3)
 	perm := g.r.Perm(len(pool))[:n]
 	sort.Ints(perm)
@@ -644,6 +660,19 @@ func (g *Generator) intent(h int64) Intent {
 		// around the minimum a delegator must bond (a parameter every replica, also a reopened one, must hold)
 		it.Amt = "n:" + new(big.Int).Add(m.Gov.MinDelegatorStake, new(big.Int).Mul(big.NewInt(int64(g.r.Range(-1, 1))), big1e18)).String()
 		g.w.Probes.Hit("gen.min-delegator-probe")
+	}
+	if k == "stake" && g.r.Chance(0.08) {
+		// make the own total equal to another delegatee's total (ties in every ranking by power)
+		own := int64(0)
+		if d := m.Delegs[g.w.Actors[it.Actor].Addr]; d != nil {
+			own = d.Total()
+		}
+		for _, a := range sortedAddrs(m.Delegs) {
+			if t := m.Delegs[a].Total(); a != g.w.Actors[it.Actor].Addr && t > own && t-own < 1_000_000 && g.r.Chance(0.5) {
+				it.Amt = fmt.Sprintf("pow:%d", t-own)
+				break
+			}
+		}
 	}
 	if k == "stake" && g.r.Chance(0.12) {
 		it.Amt = "n:" + new(big.Int).Add(m.Gov.MinValidatorStake, new(big.Int).Mul(big.NewInt(int64(g.r.Range(-1, 1))), big1e18)).String()
@@ -888,6 +917,18 @@ func (g *Generator) intent(h int64) Intent {
 			if it.Kind == "transfer" || it.Kind == "stake" || it.Kind == "call" || it.Kind == "deploy" {
 				it.Amt = []string{"bal+1", "2^255", "2^256-1", "2^255-1"}[g.r.Intn(4)]
 			}
+			if it.Kind == "setdoc" || it.Kind == "unstake" || it.Kind == "vote" || it.Kind == "proposal" {
+				// an amount near 2^255 on a tx type that moves none, preferably from a sender who cannot pay the fee
+				it.Amt = []string{"2^255-1", "2^255", "n:1", "2^256-1"}[g.r.Intn(4)]
+				if g.r.Chance(0.5) {
+					for i, a := range g.w.Actors {
+						if m.Balance(a.Addr).Sign() == 0 && (it.Kind == "setdoc") {
+							it.Actor = i
+							break
+						}
+					}
+				}
+			}
 		case 4:
 			if it.Kind == "stake" {
 				it.Amt = []string{"n:1", "n:999999999999999999", "n:1500000000000000000", "0"}[g.r.Intn(4)]
@@ -1018,6 +1059,12 @@ func (g *Generator) NextBlock(h int64) BlockStep {
 			continue
 		}
 		va := ToAddr(vals.Validators[i].Address)
+		if c.SilentVal > 0 && g.actorIdx(va) == c.SilentVal-1 {
+			st.Absent = append(st.Absent, i)
+			g.absentNow[va] = true
+			g.absentHist[va] = h
+			continue
+		}
 		if g.outage[i] > 0 {
 			g.outage[i]--
 			st.Absent = append(st.Absent, i)
@@ -1095,6 +1142,10 @@ func (g *Generator) NextBlock(h int64) BlockStep {
 		st.Txs = append(st.Txs, Intent{Kind: "bytes", Raw: w.Parked[i]})
 		w.Parked = append(w.Parked[:i], w.Parked[i+1:]...)
 		w.Probes.Hit("gen.parked-tx-delivered")
+	}
+	if !bootstrapQuiet && g.r.Chance(0.04) {
+		// the same delegatee record deleted and created again more than once inside one block
+		st.Txs = append(st.Txs, g.churn()...)
 	}
 	if g.reopenedPrev && !bootstrapQuiet {
 		st.Txs = append(st.Txs, g.reopenProbes()...)
@@ -1352,5 +1403,41 @@ func (g *Generator) reopenProbes() []Intent {
 	if len(out) > 0 {
 		w.Probes.Hit("gen.reopen-probes")
 	}
+	return out
+}
+
+
+// churn: one actor makes its delegatee record disappear and reappear repeatedly within a block: release the only
+// own stake (if it is a lone self-staker), stake, release that, stake, release that.
+func (g *Generator) churn() []Intent {
+	m := g.w.M
+	var out []Intent
+	actor := -1
+	for _, a := range sortedAddrs(m.Delegs) {
+		d := m.Delegs[a]
+		if len(d.Stakes) == 1 && d.Stakes[0].Owner == a && d.Stakes[0].ID != zeroHashHex && len(m.Delegs) > 1 {
+			if i := g.actorIdx(a); i >= 0 && g.r.Chance(0.5) {
+				actor = i
+				out = append(out, Intent{Kind: "unstake", Actor: i, Stake: d.Stakes[0].Seq})
+				break
+			}
+		}
+	}
+	if actor < 0 {
+		for k := 0; k < 6 && actor < 0; k++ {
+			i := g.richActor()
+			if m.Delegs[g.w.Actors[i].Addr] == nil {
+				actor = i
+			}
+		}
+	}
+	if actor < 0 {
+		return nil
+	}
+	to := fmt.Sprintf("a%d", actor)
+	for k := g.r.Range(1, 2); k > 0; k-- {
+		out = append(out, Intent{Kind: "stake", Actor: actor, To: to, Amt: fmt.Sprintf("pow:%d", g.r.Range(5, 40))}, Intent{Kind: "unstake", Actor: actor, Stake: -2})
+	}
+	g.w.Probes.Hit("gen.churn")
 	return out
 }
